@@ -44,6 +44,11 @@ var checks = map[string]func(*core.Ctx){
 	"C19": peerq.Run,
 	"C20": codec.Run,
 	// development aid (not registered): the session-level cluster stage of C05 alone
+	"XHAMMER": func(c *core.Ctx) {
+		c.Level = "model_checking"
+		session.HammerStage(c, "state after concurrent requests differs from the specification", 6, 150, 1)
+		c.Finish()
+	},
 	"XCLUSTER": func(c *core.Ctx) {
 		c.Level = "model_checking"
 		session.ClusterStage(c, "cluster differs from the one-broker specification at quiescence", 2, false, []string{"pubsub", "presence", "ending"}, 30, 14)
